@@ -14,7 +14,7 @@
 EXTENDS Integers
 
 S4 == 10000
-PInit(c) == [c |-> c, t0 |-> -1, exp |-> 0]
+PInit(c) == [c |-> c, t0 |-> -1, exp |-> 0, expF |-> 0, ok |-> <<TRUE, TRUE>>]
 
 \* S4 * a / b without leaving 32 bits: the fraction is reduced first, then split into quotient and remainder
 RECURSIVE Gcd(_, _)
@@ -43,16 +43,24 @@ Rate4(c, k) ==
      ELSE MulDiv(num, 60 * den)
 
 Abs(x) == IF x < 0 THEN -x ELSE x
+\* What the handle shows after callback j is a time the clock had: the time at the start of that callback (published by
+\* on_start_processing - the code's choice) or the time at its end (an implementation that also publishes after each chunk);
+\* the statement fixes neither.  Both readings are followed (exp / expF) and a session is rejected only when neither fits.
+Fits(x, t4, k) == Abs(t4 - x) <= k + 2
 Check(m, e) ==
   CASE e.a = "tw" ->
          IF e.k = 0 THEN ""
-         ELSE IF Abs(e.t4 - m.exp) > e.k + 2 THEN
+         ELSE IF ~((m.ok[1] /\ Fits(m.exp, e.t4, e.k)) \/ (m.ok[2] /\ Fits(m.expF, e.t4, e.k))) THEN
               (IF e.k <= m.c.d THEN "speed_tween_follows_the_unit_of_its_target" ELSE "advances_by_speed_times_audio_time")
          ELSE ""
     [] e.a = "panic" -> "no_panic"
     [] OTHER -> ""
 Upd(m, e) ==
   IF e.a # "tw" THEN m
-  ELSE IF e.k = 0 THEN [m EXCEPT !.t0 = e.t4, !.exp = e.t4 + (Rate4(m.c, 1) * m.c.dtn) \div m.c.dtd]
-  ELSE [m EXCEPT !.exp = @ + (Rate4(m.c, e.k + 1) * m.c.dtn) \div m.c.dtd]
+  ELSE IF e.k = 0 THEN [m EXCEPT !.t0 = e.t4, !.ok = <<TRUE, TRUE>>,
+                                 !.exp = e.t4 + (Rate4(m.c, 1) * m.c.dtn) \div m.c.dtd,
+                                 !.expF = e.t4 + (Rate4(m.c, 2) * m.c.dtn) \div m.c.dtd]
+  ELSE [m EXCEPT !.ok = <<m.ok[1] /\ Fits(m.exp, e.t4, e.k), m.ok[2] /\ Fits(m.expF, e.t4, e.k)>>,
+                 !.exp = @ + (Rate4(m.c, e.k + 1) * m.c.dtn) \div m.c.dtd,
+                 !.expF = @ + (Rate4(m.c, e.k + 2) * m.c.dtn) \div m.c.dtd]
 =============================================================================
